@@ -148,7 +148,7 @@ ALL3 = ["branch", "code", "path"]
 IN2 = [0x0, 0x80000000]
 IN2M = [0x0, 0xFFFFFFFF]
 IN4 = [0x0, 0x10, 0x80000000, 0xFFFFFFFF]
-IN12 = [0x0, 0x1, 0x2, 0x10, 0x1F, 0x20, 0x21, 0xFFFF, 0x7FFFFFFF, 0x80000000, 0x80000001, 0xFFFFFFFF]
+IN8 = [0x0, 0x1, 0x10, 0x20, 0x7FFFFFFF, 0x80000000, 0x80000001, 0xFFFFFFFF]
 M1 = [("CMP $, 0x10", "JZ"), ("TEST $, 0x1", "JNZ"), ("CMP $, 0x80000000", "JL"), ("CMP $, 0x10", "JA")]
 M2 = [("CMP $, 0x20", "JA"), ("TEST $, 0x2", "JZ"), ("CMP $, 0x13", "JNZ")]
 M3 = [("CMP $, 0x80000000", "JG"), ("TEST $, 0x80", "JNZ")]
@@ -188,7 +188,7 @@ def plan(tier):
         return jobs
     core = singles("reg", ARITH[:5], CMPS[:4], JCCS[:7])
     groups = [
-        (core, ["branch"], IN12),
+        (core, ["branch"], IN8),
         (core[:35], ALL3, IN4),
         ([s for s in singles("reg", ARITH, CMPS, JCCS) if s not in core], ["branch"], IN2),
         (singles("memdirect", ["none"], CMPS, JCCS), ["branch"], IN2),
@@ -543,6 +543,12 @@ def _shard(args):
 
 
 NSHARDS = 32
+CHILDREN = 6
+
+
+def _shard_group(group):
+    return [_shard(s) for s in group]
+
 
 
 def run(ctx):
@@ -565,16 +571,19 @@ def _run(ctx):
     for spec, be, strats, ins in js:
         assembled(spec)
     dse_run(js[0][0], "python", "branch", 0)
-    # Every jitter instance keeps ~0.5 MB of native memory for the life of the process (thousands of jitters are created
-    # here): on an oversubscribed machine, where mc/adaptive would run the shards in this process, run them one at a time in
-    # a forked child each instead, so that the memory goes back at the end of every shard.
-    if ctx.nproc > 1 and len(shards) > 1 and adaptive.oversubscribed():
+    # Every jitter instance keeps ~0.5 MB of native memory for the life of the process. The quick tier creates ~950 of them
+    # (fine in one process); the thorough tier ~7500: when mc/adaptive would run everything in this process (oversubscribed
+    # machine), the shards are run in a few forked children, one after the other, so that the memory goes back in between
+    # (a fork per shard costs more than it saves on a loaded machine: 6 children).
+    if not ctx.quick and ctx.nproc > 1 and len(shards) > 1 and adaptive.oversubscribed():
         import multiprocessing as mp
+        per = -(-len(shards) // CHILDREN)
+        groups = [shards[i:i + per] for i in range(0, len(shards), per)]
         with mp.get_context("fork").Pool(1, maxtasksperchild=1) as pool:
-            res = pool.map(_shard, shards, 1)
-        schedule = "one forked child per shard, sequential"
+            res = [r for part in pool.map(_shard_group, groups, 1) for r in part]
+        schedule = "%d forked children, sequential" % len(groups)
     else:
-        res, schedule = ctx.pmap(_shard, shards), "pool"
+        res, schedule = adaptive.amap(ctx, _shard, shards)
     tot = {}
     sigcount = {}
     outcomes = set()
